@@ -87,7 +87,8 @@ end
 /-- the twelve applicator keywords, in the order of `Spec.evalStep` -/
 def kwList (env : Spec.Env) (rec : Spec.Rec) (scope0 : List NodeId) (s : NodeId) (j : Json) (n : Node) :
     List (Option Spec.R) :=
-  [Spec.kwRef env (rec (scope0 ++ [s])) s n j, Spec.kwDynamicRef env (rec (scope0 ++ [s])) (scope0 ++ [s]) s n j,
+  [Spec.kwRef env (rec (scope0 ++ [s])) s n j,
+   Spec.kwDynamicRef env (rec (scope0 ++ [s])) (scope0 ++ [s]) s (Spec.vocab env.draft n) j,
    Spec.kwAllOf (rec (scope0 ++ [s])) n j, Spec.kwAnyOf (rec (scope0 ++ [s])) n j,
    Spec.kwOneOf (rec (scope0 ++ [s])) n j, Spec.kwNot (rec (scope0 ++ [s])) n j,
    Spec.kwIf (rec (scope0 ++ [s])) n j, Spec.kwItems env (rec (scope0 ++ [s])) n j,
@@ -181,7 +182,7 @@ theorem specBody_sim (env : Spec.Env) {rec1 rec2 : Spec.Rec} (hrec : RecSim rec1
   · exact OptRel.map (kwRef_sim hs hj hw env s n1) (fun r1 r2 hr => OptRel.map hr (fun _ _ _ => EvEqv.refl _))
   · have hl : All₂ OutSim (kwList env rec1 scope0 s j1 n1)
         (kwList env rec2 scope0 s j2 (withMaps n1 p pp d df ds dst dr dsc)) :=
-      ⟨kwRef_sim hs hj hw env s n1, kwDynamicRef_sim hs hj hw env _ s n1, kwAllOf_sim hs hj hw n1,
+      ⟨kwRef_sim hs hj hw env s n1, kwDynamicRef_sim hs hj hw env _ s (Spec.vocab env.draft n1), kwAllOf_sim hs hj hw n1,
        kwAnyOf_sim hs hj hw n1, kwOneOf_sim hs hj hw n1, kwNot_sim hs hj hw n1, kwIf_sim hs hj hw n1,
        kwItems_sim hs hj hw env n1, kwContains_sim hs hj hw (Spec.vocab env.draft n1),
        kwProps_sim hs env n1 (withMaps n1 p pp d df ds dst dr dsc) hj hw h1.getD hnd h2.getD rfl,
